@@ -65,7 +65,7 @@ def cache_discipline(repo: Repo, R):
     hit = len(hits) == 1 and isinstance(hits[0].value, ast.Name) and shared.cond_match(fr.node, hits[0], f"{hits[0].value.id} is None", False, use_prov=False)
     R.check(hit, rule, key_of(fr, "hit-returns-cached"), fr.site, f"a cache hit returns the cached Module itself: {hit}", why="equal calls return different Modules")
     sn = cfg.nodes_for(stores[0])
-    ok_store = bool(sn) and all("BODY-RAN" in w and ("cond", "call.gen.enable_cache", True) in w for n in sn for w in IN[n.id]) and ast.unparse(stores[0].value) == "m"
+    ok_store = bool(sn) and all("BODY-RAN" in w and ("cond", "call.gen.enable_cache", True) in w for n in sn for w in IN[n.id]) and isinstance(stores[0].value, ast.Name) and any(isinstance(st_, ast.Assign) and len(st_.targets) == 1 and isinstance(st_.targets[0], ast.Name) and st_.targets[0].id == stores[0].value.id and any(x is body_calls[0] for x in ast.walk(st_.value)) for st_ in au.stmts(fr.node))
     R.check(ok_store, rule, key_of(fr, "store-after-body"), fr.site, f"the result is stored under the call after the body ran, only when caching is enabled: {ok_store}", why="the cache maps a call to nothing or to another call's module")
     # parameter instance type check precedes the body
     tc = shared.fails_unless(fr.node, "isinstance(call.params, call.gen.Params)")
@@ -147,10 +147,10 @@ def readable_names(repo: Repo, R):
             why="(a='x b=y', b='z') and (a='x', b='y b=z') — or None and 'None', or two floats that agree in their first digits — give one name for two different modules, which the exporter then refuses")
     lim = None
     for n in au.walk_no_nested(fi.node):
-        if isinstance(n, ast.If) and au.cmp_norm(n.test) and "len(name)" in ast.unparse(n.test) and ast.unparse(n.body[-1]) == "return name":
+        if isinstance(n, ast.If) and au.cmp_norm(n.test) and n.body and isinstance(n.body[-1], ast.Return) and isinstance(n.body[-1].value, ast.Name) and f"len({n.body[-1].value.id})" in ast.unparse(n.test) and shared.prov_text(fi.node, n.body[-1].value) == shared.prov_text(fi.node, joins[0]):
             lim = n
     R.check(lim is not None, rule, key_of(fi, "length-limit"), fi.site, f"the readable name is used only below the length limit (`{ast.unparse(lim.test) if lim else None}`), otherwise the hash", why="over-long module names reach the netlist")
-    keys = bool(pat.find("keys = params.__params__.keys()", fi.node))
+    keys = len(g.generators) == 1 and not g.generators[0].ifs and shared.prov_text(fi.node, g.generators[0].iter) in ("params.__params__.keys()", "params.__params__", "list(params.__params__)", "list(params.__params__.keys())")
     R.check(keys, rule, key_of(fi, "all-params"), fi.site, f"every parameter of the class takes part in the name, in declaration order: {keys}", why="two calls differing in an omitted parameter share a name")
     fr = repo.func(F_GENERATOR, "run")
     sfx = pat.find("m.name += '(' + _unique_name(call.params) + ')'", fr.node)
@@ -185,26 +185,35 @@ def no_foreign_rename(repo: Repo, R):
     rule = "C09.4-no-foreign-rename"
     fr = repo.func(F_GENERATOR, "run")
     defs = au.local_defs(fr.node)
-    stores = [st for st in au.stmts(fr.node) if isinstance(st, (ast.Assign, ast.AugAssign)) and ast.unparse(st.targets[0] if isinstance(st, ast.Assign) else st.target) == "m.name"]
+    # the generated module, by role: what the generator function returned
+    mv = None
+    for st in au.stmts(fr.node):
+        if isinstance(st, ast.Assign) and len(st.targets) == 1 and isinstance(st.targets[0], ast.Name) and isinstance(st.value, ast.Call) and ast.unparse(au.expand(st.value.func, au.local_env(fr.node))).endswith(".gen.func"):
+            mv = st.targets[0].id
+    if mv is None:
+        raise AnalysisError(f"idiom-unknown: the generator function's result is not bound to a local in {fr.site}")
+    stores = [st for st in au.stmts(fr.node) if isinstance(st, (ast.Assign, ast.AugAssign)) and ast.unparse(st.targets[0] if isinstance(st, ast.Assign) else st.target) == f"{mv}.name"]
     if not stores:
-        raise AnalysisError(f"idiom-unknown: no `m.name` store in {fr.site}")
+        raise AnalysisError(f"idiom-unknown: no `{mv}.name` store in {fr.site}")
     bad = []
+    ow = [s_ for s_ in au.stmts(fr.node) if isinstance(s_, ast.Assign) and ast.unparse(s_.targets[0]) == f"{mv}._generated_by"]
     for st in stores:
-        conds = path_conditions(fr.node, st)
         guarded = False
-        for t, pol in conds:
-            tx = ast.unparse(au.expand(t, defs, depth=1))
-            # `not handed_on` with handed_on = m._generated_by is not None  /  `m._generated_by is None`
-            if (tx.replace("(", "").replace(")", "") in ("not m._generated_by is not None",) and pol) or (tx == "m._generated_by is None" and pol) or (tx == "m._generated_by is not None" and not pol):
-                guarded = True
-        # the flag must be read before `_generated_by` is overwritten
-        if guarded:
-            flag = [s for s in au.stmts(fr.node) if isinstance(s, ast.Assign) and "m._generated_by is" in ast.unparse(s.value)]
-            ow = [s for s in au.stmts(fr.node) if isinstance(s, ast.Assign) and ast.unparse(s.targets[0]) == "m._generated_by"]
-            if flag and ow and not all(f.lineno < o.lineno for f in flag for o in ow):
-                guarded = False
+        for t, pol in path_conditions(fr.node, st):
+            # the test, with a flag local replaced by what it was computed from
+            tx = shared.prov(fr.node, t, depth=1)
+            if shared.conds_imply([(tx, pol)], [(shared.parse_cond(f"{mv}._generated_by is None"), True)]) is True:
+                # the (flag's) read of `_generated_by` must happen before the attribute is overwritten
+                readers = [s_ for s_ in au.stmts(fr.node) if isinstance(s_, ast.Assign) and len(s_.targets) == 1 and isinstance(s_.targets[0], ast.Name) and isinstance(t, ast.Name) and s_.targets[0].id == t.id]
+                first_read = readers[0] if readers else None
+                at = first_read if first_read is not None else st
+                if all(shared.precedes(fr.node, at, o) for o in ow) or (first_read is None and not ow):
+                    guarded = True
+                elif first_read is None:
+                    # tested directly at the store: every overwrite must come after the test
+                    guarded = all(not shared.precedes(fr.node, o, st) for o in ow)
         if not guarded:
             bad.append(st)
     R.check(not bad, rule, key_of(fr, "name-stores-guarded"), fr.site,
-            f"all {len(stores)} store(s) to m.name are guarded by 'the module was not already generated by another call'" if not bad else f"`{ast.unparse(bad[0])}` (line {bad[0].lineno}) also renames a module that another generator call produced and named",
+            f"all {len(stores)} store(s) to {mv}.name are guarded by 'the module was not already generated by another call'" if not bad else f"`{ast.unparse(bad[0])}` (line {bad[0].lineno}) also renames a module that another generator call produced and named",
             why="a module returned through a second generator (MosStack -> Series) is renamed in place: its name grows with every generator that hands it on and depends on the call history")
